@@ -9,8 +9,8 @@ import (
 
 func init() {
 	register(&Check{
-		ID: "C12", Level: "exploration", QuickSecs: 100, ThoroughSecs: 1200,
-		Rule:        "grammars without blocks; a nested-call family (128 grammars: the nested call before and after the outer call recorded its farthest failure; whose predicate block - reporting no error - calls Parse of the same package on 4 other inputs before returning); a terminal spelling family (20 terminals: literals of every quoting / escape form / i, classes with ranges, ^, i, escapes, Unicode classes, non-ASCII, the empty and the inverted empty class; alone, under !, in a choice, in a loop before !.); (2 generation flag sets; 4, adding -optimize-basic-latin, for grammars with classes) over terminals {'a',\"ab\",\"b\"i,[ab],[^a],.,\"\"} with !/& nesting up to depth 3, seq/choice, two-rune literals failing on the second rune, terminals starting at the same offset on different paths (N<=5 quick, 6 thorough); all inputs over {a,b,\\n,é} up to L=3 (4); for every NON-matching input the complete error (position line:col (offset) of the farthest failure and the sorted, de-duplicated expected list with !-prefixed entries and EOF last) is compared with the one derived from the reference interpreter's terminal-attempt list. Non-trivial = expected list has >= 2 entries or an inverted entry.",
+		ID: "C12", Level: "exploration", QuickSecs: 150, ThoroughSecs: 1200,
+		Rule:        "grammars without blocks; a scanning-idiom family (the same terminal matching under ! at several increasing offsets: skip-until loops, keyword guards; 108 grammars, inputs over {a,b,newline} up to 5); a nested-call family (128 grammars: the nested call before and after the outer call recorded its farthest failure; whose predicate block - reporting no error - calls Parse of the same package on 4 other inputs before returning); a terminal spelling family (20 terminals: literals of every quoting / escape form / i, classes with ranges, ^, i, escapes, Unicode classes, non-ASCII, the empty and the inverted empty class; alone, under !, in a choice, in a loop before !.); (2 generation flag sets; 4, adding -optimize-basic-latin, for grammars with classes) over terminals {'a',\"ab\",\"b\"i,[ab],[^a],.,\"\"} with !/& nesting up to depth 3, seq/choice, two-rune literals failing on the second rune, terminals starting at the same offset on different paths (N<=5 quick, 6 thorough); all inputs over {a,b,\\n,é} up to L=3 (4); for every NON-matching input the complete error (position line:col (offset) of the farthest failure and the sorted, de-duplicated expected list with !-prefixed entries and EOF last) is compared with the one derived from the reference interpreter's terminal-attempt list. Non-trivial = expected list has >= 2 entries or an inverted entry.",
 		Assumptions: []string{"E1 loader", "reference failure tracking: failures under even predicate polarity, matches under odd polarity"},
 		Run:         runC12,
 	})
@@ -40,24 +40,6 @@ func runC12(c *ShardCtx) {
 	en := peg.NewEnumerator(peg.Alphabet{Leaves: leaves, Unary: allUnary, Seq: true, Choice: true, MaxArity: 3})
 	fam := &family{gens: gens2, inputs: peg.Inputs([]string{"a", "b", "\n", "é"}, l), opts: []rtapi.RunOpts{{MaxExpr: 600, Filename: "in.txt"}, {MaxExpr: 600}}, nontrivial: nontriv, confEvery: 97, confQuota: 1}
 	idx := 0
-	for size := 1; size <= n; size++ {
-		for _, body := range en.Size(size) {
-			idx++
-			if !c.Mine(idx) {
-				continue
-			}
-			if c.Expired("cut at body size " + itoa(size)) {
-				return
-			}
-			// no wrapper: the property is about grammars without blocks
-			g := &peg.Grammar{Rules: []*peg.Rule{{Name: "S", Expr: body}}}
-			f := *fam
-			if g.Has(peg.KClass) {
-				f.gens = gens4 // classes have a second matching path under -optimize-basic-latin
-			}
-			runGrammar(c, g, &f)
-		}
-	}
 	// terminal spelling family: how each terminal is NAMED in the expected list - literals of every
 	// quoting / escape form / i (named by their quoted value), classes named by their source text
 	// (ranges, ^, i, escapes, Unicode classes, non-ASCII), alone, under ! and next to another terminal
@@ -93,6 +75,37 @@ func runC12(c *ShardCtx) {
 					body = peg.Seq(peg.Star(t()), peg.Not(peg.Any()))
 				}
 				runGrammar(c, &peg.Grammar{Rules: []*peg.Rule{{Name: "S", Expr: body}}}, &famT)
+			}
+		}
+	}
+	// scanning idioms: the SAME terminal matches under ! at several increasing offsets (skip-until
+	// loops, keyword guards), followed by every kind of ending
+	{
+		ts := []func() *peg.Expr{func() *peg.Expr { return peg.Lit("a") }, func() *peg.Expr { return peg.Lit("ab") }, func() *peg.Expr { return peg.Cls(false, false, "a") }}
+		ends := []func() *peg.Expr{func() *peg.Expr { return peg.Lit("b") }, func() *peg.Expr { return peg.Not(peg.Any()) }, func() *peg.Expr { return peg.Lit("") }, func() *peg.Expr { return peg.Seq(peg.Lit("a"), peg.Lit("\n")) }}
+		famS := *fam
+		famS.inputs = peg.Inputs([]string{"a", "b", "\n"}, 5)
+		for _, t := range ts {
+			for _, t2 := range ts {
+				for _, e := range ends {
+					idx++
+					if !c.Mine(idx) {
+						continue
+					}
+					skip := func(x func() *peg.Expr) *peg.Expr { return peg.Star(peg.Seq(peg.Not(x()), peg.Any())) }
+					for _, body := range []*peg.Expr{
+						peg.Seq(skip(t), t(), skip(t2), e()),
+						peg.Seq(peg.Plus(peg.Seq(peg.Not(t()), peg.Cls(false, false, "a", "b"), peg.Opt(peg.Lit("\n")))), e()),
+						peg.Seq(peg.Not(t()), peg.Any(), peg.Not(t()), peg.Any(), peg.Not(t2()), e()),
+					} {
+						g := &peg.Grammar{Rules: []*peg.Rule{{Name: "S", Expr: body}}}
+						f := famS
+						if g.Has(peg.KClass) {
+							f.gens = gens4
+						}
+						runGrammar(c, g, &f)
+					}
+				}
 			}
 		}
 	}
@@ -154,6 +167,25 @@ func runC12(c *ShardCtx) {
 			f := *fam
 			if g.Has(peg.KClass) {
 				f.gens = gens4
+			}
+			runGrammar(c, g, &f)
+		}
+	}
+	// the main enumeration comes last: the small targeted families above always complete
+	for size := 1; size <= n; size++ {
+		for _, body := range en.Size(size) {
+			idx++
+			if !c.Mine(idx) {
+				continue
+			}
+			if c.Expired("cut at body size " + itoa(size)) {
+				return
+			}
+			// no wrapper: the property is about grammars without blocks
+			g := &peg.Grammar{Rules: []*peg.Rule{{Name: "S", Expr: body}}}
+			f := *fam
+			if g.Has(peg.KClass) {
+				f.gens = gens4 // classes have a second matching path under -optimize-basic-latin
 			}
 			runGrammar(c, g, &f)
 		}
